@@ -8,6 +8,7 @@ mod coord;
 mod hdr;
 mod pexpr;
 mod sql;
+mod tree;
 mod tup;
 mod util;
 mod val;
@@ -60,6 +61,7 @@ fn main() {
                     "tup" => tup::run(&toks),
                     "coord" => coord::run(&toks),
                     "hdr" => hdr::run(&toks),
+                    "tree" => tree::run(&toks),
                     _ => panic!("unknown mode"),
                 }));
                 let s = match r {
